@@ -84,4 +84,5 @@ WqReal33 == WqRealOf(E3, K3)
 RV0 == {0}
 RV01 == {0, U}
 RV02 == {0, 2 * U}
+RV03 == {0, 3 * U}
 =============================================================================
